@@ -489,8 +489,9 @@ def unit_names():
     return sorted(set(lib) | set(ANGSTROM_PER), key=lambda u: (u not in ANGSTROM_PER, list(ANGSTROM_PER).index(u) if u in ANGSTROM_PER else 0, u))
 
 
-def classify_scale(file_xyz, got, apu):
-    """file_xyz: numbers in the file (unit U); got: coordinates returned; apu: Angstrom per U"""
+def classify_scale(file_xyz, got, apu, exact=False):
+    """file_xyz: numbers in the file (unit U); got: coordinates returned; apu: Angstrom per U;
+    exact: the unit is an exact power of ten of the Angstrom (no 6-digit library constant involved)"""
     f = np.asarray(file_xyz, dtype=float)
     g = np.asarray(got, dtype=float)
     if g.shape != f.shape:
@@ -503,6 +504,11 @@ def classify_scale(file_xyz, got, apu):
     i = int(np.argmax(np.abs(e)))
     info = "file value %r [unit] -> expected %r A, got %r" % (float(f.flat[i]), float(e.flat[i]), float(g.flat[i]))
     if close(g, e):
+        if exact and not bool(np.all((np.abs(g - e) <= 1e-9 * np.abs(e) + 1e-12) | (np.isnan(g) & np.isnan(e)))):
+            j = int(np.argmax(np.abs(g - e)))
+            info = "file value %r [unit] -> expected %r A, got %r" % (float(f.flat[j]), float(e.flat[j]), float(g.flat[j]))
+            single = bool(np.all(g == g.astype(np.float32).astype(np.float64)))
+            return ("right-scale-but-rounded-to-single-precision" if single else "right-scale-but-imprecise"), info
         return None, info
     if close(g, f):
         return "source_units-ignored", info
@@ -555,7 +561,7 @@ def check_units(ctx, fmt, atoms, frames_A):
                 except Exception as e:
                     sym, info = "unusable-result", repr(e)
                 else:
-                    sym, info = classify_scale(want, got, apu)
+                    sym, info = classify_scale(want, got, apu, exact=u not in ("Bohr", "au"))
             ctx.outcome(("U", fmt, u, sym))
             if sym:
                 cells.setdefault(sym, set()).add((u, r))
@@ -673,7 +679,8 @@ def gen_R4(seed, thorough):
 
 R_LAYERS = {"R0": gen_R0, "R1": gen_R1, "R2": gen_R2, "R3": gen_R3, "R4": gen_R4}
 
-UVALS = [1.0, -2.5, 0.529177, 100.0, 0.001, 12345.678, 0.0]
+# incl. values whose float32 and float64 images differ in the 6th decimal (48.123456 -> 48.123455)
+UVALS = [1.0, -2.5, 48.123456, 0.529177, 100.0, -61.654321, 0.001, 12345.678, 1234.567891, 0.0]
 
 
 def gen_units(seed, thorough):
@@ -691,6 +698,89 @@ def gen_units(seed, thorough):
                 yield fmt, atoms, [f0]
                 if n > 1:
                     yield fmt, atoms, [f0, f0[1:] + f0[:1]]
+
+
+# =================================================================================================
+# RF : text -> object.  "Coordinates mean what the file says": a harness-written text with 6 written
+#      decimals, read by every reader of every class, must give the FILE's numbers
+#      (half a unit of the last written decimal + a few float64 ulps) - ensembles included
+# =================================================================================================
+RF_READERS = XYZ_READERS + [f"{c}.yield_from_xyz" for c in ("CartesianGeometry", "Structure", "Molecule")]
+# magnitudes 1, 16..100, 1e3..1e5; several are not representable in float32 to 6 decimals
+FVALS = ["1.000000", "48.123456", "-61.654321", "1234.567891", "-99999.123457", "16.000001", "0.000001", "-0.500000", "31415.926536"]
+
+
+def rf_frames(seed, start, n, k):
+    v = rot(FVALS, seed)
+    m = len(v)
+    return [[[v[(start + 3 * a + 5 * f + c * (1 + a)) % m] for c in range(3)] for a in range(n)] for f in range(k)]
+
+
+def check_file(ctx, atoms, sframes):
+    """sframes: frames of coordinate STRINGS as they stand in the file"""
+    tmp = Path(ctx.scratch) / f"c08-{os.getpid()}-f.xyz"
+    k, n = len(sframes), len(atoms)
+    case = {"layer": "RF", "atoms": [list(a) for a in atoms], "sframes": sframes}
+    ctx.count(evaluations=1, states=1, traces=1)
+    ctx.nontrivial(("RF", digest(case)))
+    text = "".join(f"{n}\nfile {fi}\n" + "".join(f"{Element(z).name:<3} {p[0]:>14} {p[1]:>14} {p[2]:>14}\n" for (z, _t), p in zip(atoms, fr)) for fi, fr in enumerate(sframes))
+    F = np.array([[[float(c) for c in p] for p in fr] for fr in sframes]).reshape(k, n, 3)
+    tmp.write_text(text, encoding="utf-8", newline="")
+    cells, detail = {}, {}
+    for r in RF_READERS:
+        ctx.count(transitions=1)
+        cname, fn = r.split(".", 1)
+        try:
+            res = do_read(r, text, tmp)
+            if cname == "ConformerEnsemble":
+                got, want = np.array(res.coords, dtype=float), F
+                els = [[int(a.element) for a in res.atoms]] * k
+            elif "all" in fn or "yield_from" in fn:
+                got, want = np.array([np.asarray(m.coords, dtype=float) for m in res]), F
+                els = [[int(a.element) for a in m.atoms] for m in res]
+            else:
+                got, want = np.array(res.coords, dtype=float), F[0]
+                els = [[int(a.element) for a in res.atoms]]
+        except Exception as e:
+            sym, info = f"read-raised-{exc(e)}", f"{exc(e)}: {e}"
+        else:
+            sym = info = None
+            if got.shape != want.shape or any(e_ != [a[0] for a in atoms] for e_ in els):
+                sym, info = "atoms-or-frames-differ-from-the-file", f"shape {got.shape} expected {want.shape}; elements {els}"
+            else:
+                tol = 0.5e-6 * (1 + 1e-9) + 4 * np.spacing(np.abs(want))
+                bad = np.abs(got - want) > tol
+                if bad.any():
+                    j = int(np.argmax(np.abs(got - want)))
+                    single = bool(np.all(got == got.astype(np.float32).astype(np.float64)))
+                    sym = "coords-rounded-to-single-precision" if single else "coords-differ-from-the-file-beyond-half-a-unit-of-the-last-decimal"
+                    info = "file says %r, read %r" % (float(want.flat[j]), float(got.flat[j]))
+        ctx.outcome(("RF", r, sym))
+        if sym:
+            cells.setdefault(sym, set()).add(r)
+            detail.setdefault((sym, r), info)
+    for sym in sorted(cells):
+        rs = sorted(cells[sym], key=RF_READERS.index)
+        ctx.violation(
+            f"file|xyz|{sym}|r={_desc(rs, RF_READERS)}",
+            f"{rs[0]} of a harness-written {k}-frame xyz text: {detail[(sym, rs[0])]}",
+            case,
+            repro=(
+                "import io, molli as ml\n"
+                f"text = {text!r}\n"
+                f"r = ml.{rs[0].split('.')[0]}.{rs[0].split('.')[1].split('[')[0]}({'text' if rs[0].split('.')[1].startswith('loads') else 'io.StringIO(text)'})\n"
+                "r = [r] if hasattr(r, 'coords') else list(r)\n"
+                "for g in r: print(g.coords.dtype, g.coords.tolist())"
+            ),
+        )
+
+
+def gen_RF(seed, thorough):
+    for n in (1, 2, 3) if thorough else (1, 2):
+        atoms = [(6, REG), (1, REG), (46, REG)][:n]
+        for k in (1, 2, 3) if thorough else (1, 2):
+            for start in range(len(FVALS)):
+                yield atoms, rf_frames(seed, start, n, k)
 
 
 # =================================================================================================
@@ -880,7 +970,7 @@ def gen_RH(seed, thorough):
 
 
 # =================================================================================================
-def _part(ctx, part):
+def _part_inner(ctx, part):
     layer, i, nparts = part
     seed, thorough = ctx.seed, ctx.thorough
     if layer in R_LAYERS:
@@ -891,6 +981,13 @@ def _part(ctx, part):
             ctx.add_note(f"cases_{layer}")
             if idx == i and i < 2:
                 ctx.sample({"layer": layer, "gspec": g})
+        return
+    if layer == "RF":
+        for idx, (atoms, sframes) in enumerate(gen_RF(seed, thorough)):
+            if idx % nparts != i:
+                continue
+            check_file(ctx, atoms, sframes)
+            ctx.add_note("cases_RF")
         return
     if layer == "RH":
         for idx, frames in enumerate(gen_RH(seed, thorough)):
@@ -913,6 +1010,23 @@ def _part(ctx, part):
     raise HarnessError(layer)
 
 
+def _part(ctx, part):
+    """a check may exit 2 only for its own bugs: an exception that escapes from the library through a path
+    the harness did not anticipate is a finding about the library, not a harness error"""
+    try:
+        _part_inner(ctx, part)
+    except HarnessError:
+        raise
+    except UnderTestDeviation as e:
+        ctx.violation(f"setup|{part[0]}|{e.symptom}", e.detail, None)
+    except Exception as e:
+        if not raised_in_library(e):
+            raise
+        import traceback
+
+        ctx.violation(f"unexpected-exception-in-the-library|{part[0]}|{exc(e)}", f"{exc(e)}: {e} :: " + traceback.format_exc()[-600:], None)
+
+
 def run(ctx):
     thorough = ctx.thorough
     ctx.rule = (
@@ -929,6 +1043,9 @@ def run(ctx):
         "loads_xyz/load_xyz of a multi-frame text return the first frame; loads_all/ConformerEnsemble return all frames in order",
         "unit check: |got - expected| <= 1e-5 * |expected| per coordinate (the library's Bohr constant 1.88973 has 6 digits); expected = file value x harness table (CODATA 2022 Bohr radius 0.529177210544 A; pm 0.01; nm 10; fm 1e-5)",
         "unit texts are written by the harness's own formatter with 10 decimals; the reference is the number as it stands in the file",
+        "object -> text -> object is judged against what the constructed OBJECT holds (normally exactly the requested values); text -> object is judged "
+        "against the numbers in the file: layer RF (6 written decimals, |read - file| <= 0.5e-6 + 4 ulp, every reader of every class) and layer UNITS "
+        "(units that are exact powers of ten of the Angstrom: rel. 1e-9; Bohr/au: rel. 1e-5)",
         "layer RH (multi-frame texts of DIFFERENT geometries): texts come from the harness's formatter ('*' for a dummy) and from molli (each geometry "
         "dumped, texts concatenated); every frame must come back with its own count, order, elements, coordinates; '*' must read as AtomType.Dummy and a "
         "real symbol as a non-dummy (reader's documented convention) - checked on harness texts only, molli itself writes a dummy as 'Unknown'",
@@ -952,7 +1069,7 @@ def run(ctx):
     )
     np_ = 16 if thorough else 8
     parts = []
-    for layer in ("R0", "R4", "R3", "RH", "UNITS", "R2", "R1"):
+    for layer in ("R0", "R4", "R3", "RF", "RH", "UNITS", "R2", "R1"):
         n = 1 if layer == "R0" else np_ * (4 if (thorough and layer in ("R1", "R2")) else 1)
         parts += [(layer, i, n) for i in range(n)]
     ctx.pmap(_part, parts)
@@ -961,6 +1078,8 @@ def run(ctx):
 def replay(ctx, case):
     if case["layer"] == "RT":
         check_geom(ctx, normspec(case["gspec"]), kinds=case.get("kinds"))
+    elif case["layer"] == "RF":
+        check_file(ctx, [(int(a[0]), int(a[1])) for a in case["atoms"]], case["sframes"])
     elif case["layer"] == "RH":
         check_hetero(ctx, [{"atoms": [[int(a[0]), int(a[1])] for a in fr["atoms"]], "xyz": [[fl(c) for c in p] for p in fr["xyz"]]} for fr in case["frames"]])
     elif case["layer"] == "UNITS":
